@@ -160,6 +160,23 @@ Proof.
   - left. exists p. destruct br; injection H as <-; reflexivity.
 Qed.
 
+(* the iteration bound [k] of the model's top-up loop is never what ends it: once numLow + k
+   exceeds cutoffIndex, any larger bound gives the same result (outer passes k = cutoffIndex with
+   numLow = 1), so the model loop runs exactly as long as Go's loop condition holds *)
+Lemma topup_bound_exact w rec maxin mc minavg target cutoff low hi : forall k k' numlow,
+  cutoff < numlow + Z.of_nat k -> (k <= k')%nat ->
+  topup w rec maxin mc minavg target cutoff low hi k numlow = topup w rec maxin mc minavg target cutoff low hi k' numlow.
+Proof.
+  induction k as [|k IH]; intros k' numlow Hc Hk.
+  - destruct k' as [|k']; [reflexivity|]. cbn [topup].
+    replace (numlow <=? cutoff) with false by lia. reflexivity.
+  - destruct k' as [|k']; [lia|]. cbn [topup].
+    destruct ((numlow <=? cutoff) && _); [|reflexivity].
+    destruct (numlow =? 0); [reflexivity|].
+    match goal with |- context [rec ?a ?b ?c ?d low] => destruct (rec a b c d low) as [br rr] end.
+    destruct rr; [reflexivity| |reflexivity]. apply IH; lia.
+Qed.
+
 Lemma topup_valid maxin mc minavg target low hi nl lowsel :
   hi <> [] -> 1 <= nl -> nl + Z.of_nat (length hi) <= maxin ->
   Forall (fun c => minavg <= vax c) hi ->
